@@ -28,7 +28,7 @@ func (d *DeliveryDetails) Validate() error {
 	return validation.ValidateStruct(d,
 		validation.Field(&d.Receiver),
 		validation.Field(&d.Identities),
-		validation.Field(&d.Date),
+		validation.Field(&d.Date, cal.DateNotZero()),
 		validation.Field(&d.Period),
 		validation.Field(&d.Meta),
 	)
